@@ -20,7 +20,7 @@ NA = {
     "C20": "pure function of (document, today): the clock enters as one scalar read; the side effect of Warnings() on the document is covered under C13",
 }
 PENDING = {p: "simulation target per DESIGN.md; its check is still under construction in this round (not claimed until the check exists)"
-           for p in ("C13",)}
+           for p in ()}
 
 def main():
     root = os.path.dirname(os.path.dirname(os.path.abspath(__file__)))
